@@ -22,6 +22,7 @@ package main
 import (
 	"crypto/x509"
 	"fmt"
+	"google.golang.org/protobuf/proto"
 	"strings"
 	"sync"
 	"time"
@@ -110,7 +111,19 @@ func runC09(c *Ctx) {
 	e0 := env.base
 	e1 := c01Resign(env.crng, g2, env.keyA)
 	e2 := c01FromParts(e0.msg.SerializedUefiGolden, c01FlipBit(e0.msg.Signature, 77))
-	endos := []*c01Endo{e0, e1, e2}
+	// E3 = a golden measurement edited to list the unendorsed measurement, carried under E0's genuine
+	// signature bytes; E4 = E1's payload under E0's signature. Both are rejected by a fresh validator;
+	// a validator that remembers "already verified" signatures/certificates from earlier calls and
+	// keys that memory by less than (payload, signature) accepts them after a genuine E0.
+	g3 := c01Clone(env.baseG)
+	g3.SevSnp.Measurements = map[uint32][]byte{1: append([]byte(nil), env.unendorsed...)}
+	p3, err := proto.Marshal(g3)
+	if err != nil {
+		panic(err)
+	}
+	e3 := c01FromParts(p3, append([]byte(nil), e0.msg.Signature...))
+	e4 := c01FromParts(e1.msg.SerializedUefiGolden, append([]byte(nil), e0.msg.Signature...))
+	endos := []*c01Endo{e0, e1, e2, e3, e4}
 	var factLine strings.Builder
 	for i, e := range endos {
 		factLine.WriteString(c01IndependentFacts(e, roots, now).line(i))
@@ -127,6 +140,8 @@ func runC09(c *Ctx) {
 		{"E1-measurement-with-E0", att(meas2), hx(meas2), e0.container, "0", false, true},
 		{"E0-measurement-with-E1", att(env.meas1), hx(env.meas1), e1.container, "1", false, true},
 		{"endorsed-measurement-forged-E2", att(env.meas1), hx(env.meas1), e2.container, "2", false, false},
+		{"unendorsed-with-edited-golden-under-E0-signature", att(unend), hx(unend), e3.container, "3", false, false},
+		{"E1-payload-under-E0-signature", att(meas2), hx(meas2), e4.container, "4", false, false},
 		{"nil-attestation", nil, "nil", e0.container, "0", false, false},
 		{"short-measurement", att(env.meas1[:40]), hx(env.meas1[:40]), e0.container, "0", false, false},
 	}
